@@ -3,6 +3,7 @@ package checks
 import (
 	"fmt"
 	"reflect"
+	"sync/atomic"
 	"time"
 
 	config "github.com/TheCacophonyProject/go-config"
@@ -68,10 +69,22 @@ func (f DFrame) frame(c DCfg, id int) *cptvframe.Frame {
 }
 
 // detect runs the real detector over the stream and returns the per-frame results.
-func detectStream(c DCfg, fs []DFrame) []bool {
+// DetectPanic is set (per goroutine use: read right after the call) when the detector panicked.
+func detectStream(c DCfg, fs []DFrame) (res []bool) {
+	defer func() {
+		if p := recover(); p != nil {
+			// a panic inside the detector is reported as "motion on every frame + panic marker": the
+			// callers' oracles then flag it; the message is kept for the violation text
+			res = make([]bool, len(fs))
+			for i := range res {
+				res[i] = true
+			}
+			lastDetectPanic.Store(fmt.Sprint(p))
+		}
+	}()
 	conf := c.motionConf()
 	d := motion.NewMotionDetector(conf, c.Preview, c.cam())
-	res := make([]bool, len(fs))
+	res = make([]bool, len(fs))
 	for i, f := range fs {
 		if f.Reset {
 			d.Reset(c.cam())
@@ -80,6 +93,8 @@ func detectStream(c DCfg, fs []DFrame) []bool {
 	}
 	return res
 }
+
+var lastDetectPanic atomic.Value
 
 // refDetect is the statement of C07 transcribed: fixed threshold, streams free of FFC events.
 func refDetect(c DCfg, fs []DFrame) []bool {
